@@ -13,6 +13,7 @@
 import Krp.Props.C08
 import Krp.Props.C04
 import Krp.Props.C12
+import Krp.Lemmas.Calm
 namespace Krp
 open HubSt
 
@@ -118,5 +119,225 @@ theorem C09_hub_independent_of_stubs (s : Sys) (ook sok : Bool) (op sp : Nat) (s
       sender funds m = hubExec s.hub s.hubEnv sender funds m := rfl
 
 example : mulDec 10 (9 * D / 10) ≤ 9 := by decide
+
+/-! ### Non-interference, as whole transactions
+
+  `withStubs s …` is `s` with the swap / oracle stubs set to arbitrary behaviour (working, failing,
+  any price).  A transaction started by a calm message — every user-facing exit operation is one:
+  Bond, BondForStSei, the cw20 Send/SendFrom that carries Unbond or Convert, WithdrawUnbonded,
+  CheckSlashing, every token message, ClaimRewards — runs to exactly the same result, and the same
+  final state of every contract, bank account, delegation and unbonding entry, whatever the stubs do. -/
+
+def withStubs (s : Sys) (ook : Bool) (op : Nat) (sok : Bool) (sp : Nat) : Sys :=
+  { s with chain := { s.chain with oracleOk := ook, oraclePrice := op, swapOk := sok, swapP2 := sp } }
+
+theorem bankMove_stubs (s : Sys) (ook : Bool) (op : Nat) (sok : Bool) (sp : Nat) (src dst : Addr) (d : Denom) (amt : Nat) :
+    (withStubs s ook op sok sp).bankMove src dst d amt =
+      (s.bankMove src dst d amt).map (fun r => withStubs r ook op sok sp) := by
+  unfold Sys.bankMove
+  show (if amt = 0 then _ else if s.chain.bank src d < amt then _ else _) = _
+  split
+  · rfl
+  · split
+    · rfl
+    · rfl
+
+theorem moveFunds_stubs (ook : Bool) (op : Nat) (sok : Bool) (sp : Nat) (src dst : Addr) :
+    ∀ (l : List (Denom × Nat)) (s : Sys), (withStubs s ook op sok sp).moveFunds src dst l =
+      (s.moveFunds src dst l).map (fun r => withStubs r ook op sok sp) := by
+  intro l
+  induction l with
+  | nil => intro s; rfl
+  | cons c rest ih =>
+    intro s
+    obtain ⟨d, amt⟩ := c
+    simp only [Sys.moveFunds]
+    rw [bankMove_stubs]
+    cases h : s.bankMove src dst d amt with
+    | error e => rfl
+    | ok s1 => simp only [Except.map]; exact ih s1
+
+/-- dispatcher messages other than its swap do not look at the oracle or the swap simulation -/
+theorem dispExec_env (c : DispSt) (self : Addr) (env env' : DispEnv) (sender : Addr) (m : DispMsg)
+    (hb : env.bal = env'.bal) (hm : ∀ a b, m ≠ .swap a b) :
+    dispExec c self env sender m = dispExec c self env' sender m := by
+  cases m with
+  | swap a b => exact absurd rfl (hm a b)
+  | dispatch => simp only [dispExec, hb]
+  | _ => rfl
+
+/-- one message: same outcome, same emitted messages, same state up to the stubs -/
+theorem handle_stubs (s : Sys) (ook : Bool) (op : Nat) (sok : Bool) (sp : Nat) (m : Msg) (hc : Calm m = true) :
+    (withStubs s ook op sok sp).handle m =
+      (s.handle m).map (fun r => (withStubs r.1 ook op sok sp, r.2)) := by
+  cases m with
+  | bankSend src dst d amt =>
+    simp only [Sys.handle, bind, Except.bind, pure, Except.pure]
+    rw [bankMove_stubs]
+    cases s.bankMove src dst d amt <;> rfl
+  | delegate who v amt =>
+    simp only [Sys.handle, bind, Except.bind, pure, Except.pure, throw, throwThe, MonadExceptOf.throw, withStubs,
+      Sys.setBank]
+    repeat' split
+    all_goals (repeat (first | rfl | simp only [*, if_true, if_false, Bool.false_eq_true, not_true_eq_false, not_false_eq_true] | split))
+  | undelegate who v amt =>
+    simp only [Sys.handle, bind, Except.bind, pure, Except.pure, throw, throwThe, MonadExceptOf.throw, withStubs,
+      Sys.setBank]
+    repeat' split
+    all_goals (repeat (first | rfl | simp only [*, if_true, if_false, Bool.false_eq_true, not_true_eq_false, not_false_eq_true] | split))
+  | redelegate who src dst amt =>
+    simp only [Sys.handle, bind, Except.bind, pure, Except.pure, throw, throwThe, MonadExceptOf.throw, withStubs,
+      Sys.setBank]
+    repeat' split
+    all_goals (repeat (first | rfl | simp only [*, if_true, if_false, Bool.false_eq_true, not_true_eq_false, not_false_eq_true] | split))
+  | withdrawReward who v =>
+    simp only [Sys.handle, bind, Except.bind, pure, Except.pure, throw, throwThe, MonadExceptOf.throw, withStubs,
+      Sys.setBank]
+    repeat' split
+    all_goals (repeat (first | rfl | simp only [*, if_true, if_false, Bool.false_eq_true, not_true_eq_false, not_false_eq_true] | split))
+  | setWithdrawAddr who a =>
+    simp only [Sys.handle, bind, Except.bind, pure, Except.pure, throw, throwThe, MonadExceptOf.throw, withStubs,
+      Sys.setBank]
+    repeat' split
+    all_goals (repeat (first | rfl | simp only [*, if_true, if_false, Bool.false_eq_true, not_true_eq_false, not_false_eq_true] | split))
+  | wasm sender target call funds =>
+    simp only [Sys.handle, bind, Except.bind, pure, Except.pure, throw, throwThe, MonadExceptOf.throw]
+    rw [moveFunds_stubs]
+    cases hmv : s.moveFunds sender target funds with
+    | error e => rfl
+    | ok s1 =>
+      simp only [Except.map]
+      by_cases t1 : target = hubA
+      · simp only [t1, if_true]
+        cases call with
+        | hub hm =>
+          simp only []
+          have e : hubExec (withStubs s1 ook op sok sp).hub (withStubs s1 ook op sok sp).hubEnv sender funds hm =
+              hubExec s1.hub s1.hubEnv sender funds hm := rfl
+          rw [e]
+          cases hubExec s1.hub s1.hubEnv sender funds hm <;> rfl
+        | _ => rfl
+      · simp only [t1, if_false]
+        by_cases t2 : target = bseiA
+        · simp only [t2, if_true]
+          cases call with
+          | tok tm =>
+            simp only []
+            have e : bseiExec (withStubs s1 ook op sok sp).bsei (withStubs s1 ook op sok sp).block bseiA
+                (withStubs s1 ook op sok sp).bseiRewardAddr hubA sender tm =
+                bseiExec s1.bsei s1.block bseiA s1.bseiRewardAddr hubA sender tm := rfl
+            rw [e]
+            cases bseiExec s1.bsei s1.block bseiA s1.bseiRewardAddr hubA sender tm <;> rfl
+          | _ => rfl
+        · simp only [t2, if_false]
+          by_cases t3 : target = stseiA
+          · simp only [t3, if_true]
+            cases call with
+            | tok tm =>
+              simp only []
+              have e : stseiExec (withStubs s1 ook op sok sp).stsei (withStubs s1 ook op sok sp).block stseiA hubA sender tm =
+                  stseiExec s1.stsei s1.block stseiA hubA sender tm := rfl
+              rw [e]
+              cases stseiExec s1.stsei s1.block stseiA hubA sender tm <;> rfl
+            | _ => rfl
+          · simp only [t3, if_false]
+            by_cases t4 : target = rewardA
+            · simp only [t4, if_true]
+              cases call with
+              | reward rm =>
+                simp only []
+                have e : rewardExec (withStubs s1 ook op sok sp).reward rewardA
+                    ((withStubs s1 ook op sok sp).hubTokenOf (withStubs s1 ook op sok sp).reward.hub)
+                    ((withStubs s1 ook op sok sp).hubDispatcherOf (withStubs s1 ook op sok sp).reward.hub)
+                    ((withStubs s1 ook op sok sp).chain.bank rewardA) sender rm =
+                    rewardExec s1.reward rewardA (s1.hubTokenOf s1.reward.hub) (s1.hubDispatcherOf s1.reward.hub)
+                      (s1.chain.bank rewardA) sender rm := rfl
+                rw [e]
+                cases rewardExec s1.reward rewardA (s1.hubTokenOf s1.reward.hub) (s1.hubDispatcherOf s1.reward.hub)
+                  (s1.chain.bank rewardA) sender rm <;> rfl
+              | _ => rfl
+            · simp only [t4, if_false]
+              by_cases t5 : target = dispA
+              · simp only [t5, if_true]
+                cases call with
+                | disp dm =>
+                  simp only []
+                  have hdm : ∀ a b, dm ≠ .swap a b := by
+                    intro a b h; subst h; simp [Calm] at hc
+                  have e : dispExec (withStubs s1 ook op sok sp).disp dispA (withStubs s1 ook op sok sp).dispEnv sender dm =
+                      dispExec s1.disp dispA s1.dispEnv sender dm :=
+                    dispExec_env s1.disp dispA (withStubs s1 ook op sok sp).dispEnv s1.dispEnv sender dm rfl hdm
+                  rw [e]
+                  cases dispExec s1.disp dispA s1.dispEnv sender dm <;> rfl
+                | _ => rfl
+              · simp only [t5, if_false]
+                by_cases t6 : target = regA
+                · simp only [t6, if_true]
+                  cases call with
+                  | reg rm =>
+                    simp only []
+                    have : (withStubs s1 ook op sok sp).regExec sender rm = s1.regExec sender rm := by
+                      cases rm <;> rfl
+                    rw [this]
+                    cases s1.regExec sender rm <;> rfl
+                  | _ => rfl
+                · simp only [t6, if_false]
+                  by_cases t7 : target = swapA
+                  · simp only [t7, if_true]
+                    cases call with
+                    | swapDenom a b c d => simp [Calm] at hc
+                    | _ => rfl
+                  · simp only [t7, if_false]
+                    split <;> rfl
+
+/-- the whole queue: same outcome, same state up to the stubs -/
+theorem run_stubs (ook : Bool) (op : Nat) (sok : Bool) (sp : Nat) :
+    ∀ (fuel : Nat) (s : Sys) (q : List Msg), AllCalm q →
+      Sys.run fuel (withStubs s ook op sok sp) q = (Sys.run fuel s q).map (fun r => withStubs r ook op sok sp) := by
+  intro fuel
+  induction fuel with
+  | zero =>
+    intro s q _
+    cases q <;> rfl
+  | succ n ih =>
+    intro s q hq
+    cases q with
+    | nil => rfl
+    | cons m rest =>
+      have hm : Calm m = true := hq m (List.mem_cons_self ..)
+      simp only [Sys.run]
+      rw [handle_stubs s ook op sok sp m hm]
+      cases hh : s.handle m with
+      | error e => rfl
+      | ok r =>
+        obtain ⟨s1, subs⟩ := r
+        simp only [Except.map]
+        apply ih
+        intro x hx
+        rcases List.mem_append.mp hx with h | h
+        · exact handle_calm s s1 m subs hm hh x h
+        · exact hq x (List.mem_cons_of_mem _ h)
+
+/-- **Non-interference, as whole transactions.** For every state, every behaviour of the swap and
+    oracle stubs, and every calm top-level message (all user-facing exit operations are calm), the
+    transaction has the same outcome — success or the same failure — and leaves every contract, bank
+    account, delegation, unbonding entry and pending reward exactly as it would with any other stub
+    behaviour. -/
+theorem C09_noninterference (s : Sys) (m : Msg) (hc : Calm m = true) (ook : Bool) (op : Nat) (sok : Bool) (sp : Nat) :
+    ((withStubs s ook op sok sp).exec m).2 = (s.exec m).2 ∧
+    ((withStubs s ook op sok sp).exec m).1 = withStubs (s.exec m).1 ook op sok sp := by
+  unfold Sys.exec
+  rw [run_stubs ook op sok sp 400 s [m] (by intro x hx; simp at hx; subst hx; exact hc)]
+  cases Sys.run 400 s [m] with
+  | error e => exact ⟨rfl, rfl⟩
+  | ok r => exact ⟨rfl, rfl⟩
+
+/-- the user-facing exit operations are calm, whoever sends them and whatever they carry -/
+example (u : Addr) (f : List (Denom × Nat)) (a : Nat) (hook : Hook) (rc : Option Addr) :
+    Calm (.wasm u hubA (.hub .bond) f) = true ∧ Calm (.wasm u hubA (.hub .bondForStSei) f) = true ∧
+    Calm (.wasm u hubA (.hub .withdrawUnbonded) f) = true ∧ Calm (.wasm u hubA (.hub .checkSlashing) f) = true ∧
+    Calm (.wasm u bseiA (.tok (.send hubA a hook)) f) = true ∧ Calm (.wasm u stseiA (.tok (.send hubA a hook)) f) = true ∧
+    Calm (.wasm u bseiA (.tok (.transfer 6 a)) f) = true ∧ Calm (.wasm u rewardA (.reward (.claim rc)) f) = true :=
+  ⟨rfl, rfl, rfl, rfl, rfl, rfl, rfl, rfl⟩
 
 end Krp
